@@ -166,6 +166,18 @@ def run(case, tape=None):
                 raise OracleFail('wrong-data', dict(step=step, op=op, rank=rank, layout=layout,
                                                     saved=None if saved is None else saved[1],
                                                     diff=cm.first_diff(got, want)))
+            # the local-to-global accessors must follow the grid's current layout after every operation
+            lay_now = mgr.getLayout(layout)
+            zero = (0,) * got.ndim
+            gi = grid.getGlobalIndices(*zero)
+            want_gi = [0] * got.ndim
+            for i_, d_ in enumerate(lay_now.dims_order):
+                want_gi[d_] = int(lay_now.starts[i_])
+            if [int(x) for x in gi] != want_gi or \
+                    [list(grid.getGlobalIdxVals(i_))[:1] for i_ in range(got.ndim) if got.shape[i_]] != \
+                    [[int(lay_now.starts[i_])] for i_ in range(got.ndim) if got.shape[i_]]:
+                raise OracleFail('stale-accessor', dict(step=step, op=op, rank=rank, layout=layout,
+                                                        getGlobalIndices=[int(x) for x in gi], want=want_gi))
             # the slice accessors must look at the same memory as getAllData()
             z = (0,) * (got.ndim - 1)
             if got.size and not cm.bits_equal(grid.get1DSlice(*z), got[z]):
